@@ -40,6 +40,55 @@ class Reject(Exception):
         self.reason = reason
 
 
+class CaseTimeout(BaseException):
+    """Raised by the per-case watchdog (BaseException: `except Exception` in the code under test must not swallow it)."""
+
+
+class case_deadline(object):
+    """
+    Context manager: SIGALRM-based wall-clock limit for ONE generated case.  Generated cases take milliseconds; the limit
+    (minutes) only exists so that code which has stopped terminating cannot hang a whole check.  What a timeout means is
+    the family's decision: 'inconclusive' (counted as rejected) by default, a violation only where termination within a
+    bounded number of steps is itself what the property states.
+    """
+
+    def __init__(self, seconds):
+        self.seconds = seconds
+        self.old = None
+
+    def _fire(self, signum, frame):
+        raise CaseTimeout()
+
+    def __enter__(self):
+        import signal
+        import threading
+        self.armed = hasattr(signal, 'SIGALRM') and threading.current_thread() is threading.main_thread() and self.seconds
+        if self.armed:
+            self.old = signal.signal(signal.SIGALRM, self._fire)
+            signal.setitimer(signal.ITIMER_REAL, float(self.seconds))
+        return self
+
+    def __exit__(self, et, ev, tb):
+        import signal
+        if self.armed:
+            signal.setitimer(signal.ITIMER_REAL, 0.0)
+            signal.signal(signal.SIGALRM, self.old)
+        return False
+
+
+def run_case(fam, spec):
+    """fam.run(spec) under the family's watchdog; a timeout becomes the family's Violation or a Reject."""
+    try:
+        with case_deadline(fam.case_timeout):
+            return fam.run(spec)
+    except CaseTimeout:
+        if fam.timeout_bucket:
+            raise Violation(fam.timeout_bucket, 'the case did not terminate within %d s of wall clock (cases of this family '
+                                                'normally take milliseconds; the code under test bounds its own work by '
+                                                'an iteration cap)' % fam.case_timeout)
+        raise Reject('case timeout after %d s (inconclusive)' % fam.case_timeout)
+
+
 class Family(object):
     """
     name      : str
@@ -47,9 +96,13 @@ class Family(object):
     run       : callable(spec) -> {'nontrivial': bool, 'labels': [...]}
     quick / thorough : total number of generated cases per tier
     weight_shards : maximal number of worker processes to spread over
+    case_timeout / timeout_bucket : wall-clock watchdog per case (seconds) and, if termination is part of the property,
+                the violation bucket a timeout is reported under (default None: a timeout is inconclusive)
     """
 
-    def __init__(self, name, strategy, run, quick, thorough, max_shards=16, doc=''):
+    def __init__(self, name, strategy, run, quick, thorough, max_shards=16, doc='', case_timeout=600, timeout_bucket=None):
+        self.case_timeout = case_timeout
+        self.timeout_bucket = timeout_bucket
         self.name = name
         self.strategy = strategy
         self.run = run
@@ -129,11 +182,19 @@ def run_shard(prop_id, family_name, n_cases, seed, shrink_budget_s=0.0):
         'labels': {}, 'samples': [], 'failures': {}, 'rejected': {}, 'harness_errors': [],
     }
 
+    timeouts = [0]
+
     def body(spec):
+        if timeouts[0] >= 3:
+            # three cases of this shard ran into the watchdog: do not spend hours on more of the same
+            res['labels']['skipped-after-3-timeouts'] = res['labels'].get('skipped-after-3-timeouts', 0) + 1
+            return
         res['evaluations'] += 1
         try:
-            out = fam.run(spec)
+            out = run_case(fam, spec)
         except Violation as v:
+            if v.bucket == fam.timeout_bucket:
+                timeouts[0] += 1
             lst = res['failures'].setdefault(v.bucket, [])
             size = len(canonical(spec))
             lst.append((size, spec, v.message, v.signature))
@@ -143,6 +204,8 @@ def run_shard(prop_id, family_name, n_cases, seed, shrink_budget_s=0.0):
             res['labels'][lab] = res['labels'].get(lab, 0) + 1
             return
         except Reject as r:
+            if r.reason.startswith('case timeout'):
+                timeouts[0] += 1
             res['rejected'][r.reason] = res['rejected'].get(r.reason, 0) + 1
             return
         if out is None:
@@ -186,11 +249,14 @@ def shrink_bucket(fam, bucket, seed, n_cases, budget_s):
     best = [None]
     deadline = time.time() + budget_s
 
+    if bucket == fam.timeout_bucket:
+        return None     # every failing example costs a full watchdog period: not worth shrinking
+
     def body(spec):
         if time.time() > deadline:
             return
         try:
-            fam.run(spec)
+            run_case(fam, spec)
         except Violation as v:
             if v.bucket != bucket:
                 return
@@ -214,4 +280,4 @@ def replay_spec(prop_id, family_name, spec):
     quiet_repo_import()
     mod = load_property(prop_id)
     fam = get_family(mod, family_name)
-    return fam.run(spec)
+    return run_case(fam, spec)
